@@ -106,8 +106,9 @@ def _program(r, ti, n_ops):
     for oi in range(n_ops):
         n_src = r.randrange(1, 4)
         sources = []
+        api = r.choice(['builder', 'builder', 'multi', 'config_build', 'cmdline'])
         for si in range(n_src):
-            kind = r.choice(['file', 'file', 'text', 'text_fn', 'stream'])
+            kind = r.choice(['file', 'file', 'text', 'text_fn', 'stream']) if api != 'cmdline' else 'file'    # command-line arguments name files
             ndocs = 1 if r.random() < 0.7 else 2
             allow_fail = r.random() < 0.35
             docs = [_doc(g, r, ti, files, None if kind == 'text' else root, allow_fail=allow_fail) for _ in range(ndocs)]
@@ -119,7 +120,7 @@ def _program(r, ti, n_ops):
             elif r.random() < 0.06:
                 fault = 'merge_error'
                 text = '{a: [1, 2]}\n---\n{a: {5: 1}}\n'
-            src = {'kind': kind, 'safe': r.choice([None, None, True, False]), 'fault': fault}
+            src = {'kind': kind, 'safe': r.choice([None, None, True, False]) if api != 'cmdline' else None, 'fault': fault}
             if kind == 'file':
                 path = f'{root}/m{oi}_{si}.yaml'
                 files[path] = text
@@ -134,7 +135,7 @@ def _program(r, ti, n_ops):
                     src['filename'] = f'{root}/virt{oi}_{si}.yaml'
             sources.append(src)
         ops.append({'sources': sources, 'eval': r.random() < 0.75, 'continue': r.random() < 0.3,
-                    'api': r.choice(['builder', 'builder', 'multi', 'config_build'])})
+                    'api': api})
     return {'ti': ti, 'files': files, 'ops': ops}
 
 
@@ -209,10 +210,13 @@ def _client(prog, out):
             log_start = len(recorder.LOG)
             try:
                 root = None
-                if op['api'] == 'config_build' and all(sr['kind'] in ('file', 'text') and sr.get('safe') is None for sr in op['sources']):
+                if op['api'] in ('config_build', 'cmdline') and all(sr['kind'] in ('file', 'text') and sr.get('safe') is None for sr in op['sources']):
                     srcs = [sr['path'] if sr['kind'] == 'file' else sr['text'] for sr in op['sources']]
                     raws = [sr.get('raw_yaml') if sr['kind'] == 'file' else True for sr in op['sources']]
-                    cfg = Config.build(*srcs, raw_yaml=raws)
+                    if op['api'] == 'cmdline' and all(sr['kind'] == 'file' for sr in op['sources']):
+                        cfg = Config.build_from_cmdline(*srcs)      # the command-line entry point: file arguments
+                    else:
+                        cfg = Config.build(*srcs, raw_yaml=raws)
                     rec['cfg'] = observe.native(cfg)
                     root = getattr(cfg, '_source', None)
                     if root is not None:
